@@ -6,7 +6,7 @@
 -/
 import Proofs.WF
 import Proofs.Short
-import Proofs.SetClosed
+import Proofs.Base
 import Facts.Generated
 namespace C15
 open Esdt
@@ -40,34 +40,8 @@ theorem canon_entry_decodes (A : Accts) (hC : Canon A) (a k : Bytes) (hk : TokKe
 theorem wf_step (f : FnId) (env : Env) (c : Call) (ctx ctx' : Ctx) (out : VMOutput)
     (hC : Canon ctx.accts) (hS0 : Short ctx.accts) (ha : ArgsShort c)
     (hreach : c.caller = c.rcv → present env.nshards env.self c.caller = true)
-    (h : exec env f c ctx = .ok (out, ctx')) : Canon ctx'.accts ∧ Short ctx'.accts := by
-  have hS : Short ctx'.accts := short_step f env c ctx ctx' out ha hS0 h
-  refine ⟨?_, hS⟩
-  unfold exec at h
-  cases f <;> simp only [runFn] at h
-  · exact (canon_claimDeveloperRewards env c ctx ctx' out hC h).toCanon hS
-  · exact (canon_changeOwnerAddress env c ctx ctx' out hC h).toCanon hS
-  · exact (canon_setUserName env c ctx ctx' out hC h).toCanon hS
-  · exact (canon_saveKeyValue env c ctx ctx' out hC h).toCanon hS
-  · exact (canon_esdtPause env c ctx ctx' out true hC h).toCanon hS
-  · exact (canon_esdtPause env c ctx ctx' out false hC h).toCanon hS
-  · exact (canon_esdtTransfer_all env c ctx ctx' out hC hS0 h).toCanon hS
-  · exact (canon_esdtBurn env c ctx ctx' out hC h).toCanon hS
-  · exact (canon_toggleFreeze env c ctx ctx' out .freeze (by decide) hC h).toCanon hS
-  · exact (canon_toggleFreeze env c ctx ctx' out .unfreeze (by decide) hC h).toCanon hS
-  · exact (canon_wipe env c ctx ctx' out hC h).toCanon hS
-  · exact (canon_esdtRoles env c ctx ctx' out false hC h).toCanon hS
-  · exact (canon_esdtRoles env c ctx ctx' out true hC h).toCanon hS
-  · exact (canon_localBurn env c ctx ctx' out hC h).toCanon hS
-  · exact (canon_localMint env c ctx ctx' out hC h).toCanon hS
-  · exact (canon_addQuantity env c ctx ctx' out hC h).toCanon hS
-  · exact (canon_nftBurn env c ctx ctx' out hC h).toCanon hS
-  · exact (canon_nftCreate env c ctx ctx' out hC h).toCanon hS
-  · exact (canon_nftTransfer env c ctx ctx' out hC hreach h).toCanon hS
-  · exact (canon_createRoleTransfer env c ctx ctx' out hC h).toCanon hS
-  · exact (canon_updateAttributes env c ctx ctx' out hC h).toCanon hS
-  · exact (canon_addURI env c ctx ctx' out hC h).toCanon hS
-  · exact (canon_multiTransfer env c ctx hC hS0).elim h
+    (h : exec env f c ctx = .ok (out, ctx')) : Canon ctx'.accts ∧ Short ctx'.accts :=
+  canon_short_step f env c ctx ctx' out hC hS0 ha hreach h
 
 /-- the empty state is well-formed -/
 theorem wf_init : Canon [] := fun _ _ _ _ => Or.inl rfl
